@@ -188,14 +188,20 @@ Fixpoint scan_digits (b : Z) (l : list Z) (acc cnt : Z) : Z * Z :=
   | [] => (acc, cnt)
   end.
 Definition sat (v : Z) : Z := if v >? ULONG_MAX then ULONG_MAX else v.
+Definition scan_sat (b : Z) (l : list Z) : Z * Z := let '(v, c) := scan_digits b l 0 0 in (sat v, c).
 Definition strtoul0 (l : list Z) : Z * Z :=
   match l with
-  | 48 :: x :: h :: r =>
-      if ((x =? 120) || (x =? 88)) && isxdigit h
-      then let '(v, c) := scan_digits 16 (h :: r) 0 0 in (sat v, c + 2)
-      else let '(v, c) := scan_digits 8 l 0 0 in (sat v, c)
-  | 48 :: _ => let '(v, c) := scan_digits 8 l 0 0 in (sat v, c)
-  | _ => let '(v, c) := scan_digits 10 l 0 0 in (sat v, c)
+  | c0 :: t =>
+      if c0 =? 48 then
+        match t with
+        | x :: h :: r =>
+            if ((x =? 120) || (x =? 88)) && isxdigit h
+            then let '(v, c) := scan_sat 16 (h :: r) in (v, c + 2)
+            else scan_sat 8 l
+        | _ => scan_sat 8 l
+        end
+      else scan_sat 10 l
+  | [] => scan_sat 10 l
   end.
 
 (* decimal text of a non-negative number (snprintf "%d" for n+1 >= 0) *)
